@@ -72,7 +72,10 @@ def run(res, tier, seed):
                 'trace is replayed on the model; (b) histories of 1..400 real TCP connections (valid in several ways, fault-provoking, early close, RST before/after sending, '
                 'half-sent at every place, oversized / exactly buffer-sized, stalls, segments, answers abandoned while written, bursts, held idle connections, accept() failing '
                 'under a descriptor limit; the same kind > 16 times per worker) against the real binary with N in {1,2,3,4,8} workers, then the probe: N-1 idle connections + one '
-                'request, then a table of valid requests compared with the answers of a fresh server; distinct = distinct (scenario, trace) pairs / histories')
+                'request, then a table of valid requests compared with the answers of a fresh server; second audit pass (audit/C06/AUDIT2.md): 553 requests with the headers a new feature would read, '
+                'keep-alive / Expect / chunked / upgrade conversations, variants of a request before or after the plain request for the same file, files that change, N requests at the same moment, '
+                'slow readers, storms of 130..1030 equal connections (also under a descriptor limit), histories with stalled readers / idle / half-sent connections in the background; '
+                'distinct = distinct (scenario, trace) pairs / histories')
     for k in (0, 1, len(lines) - 1):
         if impl[k] != 'skipped':
             res.sample({'scenario': lines[k][:120], 'implementation': impl[k][:200] + '…', 'model': answers.get(k)})
@@ -87,9 +90,12 @@ def replay(rp):
         # a history of connections: run it again on the real binary (the variants of the old kinds are drawn from a fixed seed)
         from props import c06_socket
         res = C.Result('C06')
-        hs = dict(n=case['N'], hist=case['history'], alloc=case.get('alloc'), nofile=case.get('nofile'), label='replay')
-        # four times: how the probe and the requests after the history are made depends on the position of the history in the run
-        c06_socket.run_part(res, C.Rng(0x50C), 'quick', only=[hs] * 4)
+        hs = dict(n=case['N'], hist=case['history'], alloc=case.get('alloc'), nofile=case.get('nofile'), args=case.get('args'), bg=case.get('background'),
+                  bg_ms=case.get('background_ms', 0), label='replay')
+        # how the probe and the requests after the history are made depends on the position of the history in the run: a recorded
+        # position is used again (three times); without one, four positions are tried
+        if case.get('position') is not None: hs['position'] = case['position']
+        c06_socket.run_part(res, C.Rng(0x50C), 'quick', only=[hs] * (3 if 'position' in hs else 4))
         print('history         :', case)
         print('oracle failures :', len(res.failures))
         for f in res.failures[:3]: print('  failure:', f['sig'], '-', f['why'], '-', str(f['impl'])[:300])
